@@ -21,7 +21,7 @@ PLAN = {
     "quick": {"configs": ["ext1", "ext0"], "nshards": 9, "nshards_ext0": 3, "timeout": 900},
     "thorough": {"configs": ["ext1", "ext0"], "nshards": 14, "timeout": 3400, "suite": ["ext1"]},
 }
-DECIDING = ["format.phrase", "history", "in_words", "tokens", "humans.direction", "bound"]
+DECIDING = ["direction.marker", "format.phrase", "history", "in_words", "tokens", "humans.direction", "bound"]
 FLOORS = {"quick": {"format.phrase": 300000, "history": 50000, "in_words": 5000, "tokens": 10000, "humans.direction": 5000, "bound": 20000},
           "thorough": {"format.phrase": 1500000, "history": 200000, "in_words": 50000, "tokens": 10000, "humans.direction": 50000, "bound": 200000}}
 REQUIRED_HOOKS = ["DifferenceFormatter.format"]
@@ -120,6 +120,31 @@ def reference(D, plural, unit, count, is_now, future, absolute):
     return _fmt(outer, _fmt(tmpl, count))
 
 
+def _toks(s):
+    import re
+
+    return set(re.findall(r"[^\W\d_]+", s.replace("{0}", " ").replace("{}", " ").lower(), re.U))
+
+
+def _markers(D):
+    """(past marker words, future marker words): words shared by the past (future) templates of all but at most one unit
+    and used by at most one unit's templates of the other direction; None when the locale has no such words"""
+    import collections
+
+    rel = dig(D, "translations.relative") or {}
+    units = [u for u in ("year", "month", "week", "day", "hour", "minute", "second") if isinstance(rel.get(u), dict)
+             and isinstance(rel[u].get("past"), dict) and isinstance(rel[u].get("future"), dict)]
+    if len(units) < 4:
+        return None
+    past = {u: set().union(*[_toks(t) for t in rel[u]["past"].values() if isinstance(t, str)]) for u in units}
+    fut = {u: set().union(*[_toks(t) for t in rel[u]["future"].values() if isinstance(t, str)]) for u in units}
+    cp = collections.Counter(t for u in units for t in past[u])
+    cf = collections.Counter(t for u in units for t in fut[u])
+    mp = {t for t, c in cp.items() if c >= len(units) - 1 and cf[t] <= 1}
+    mf = {t for t, c in cf.items() if c >= len(units) - 1 and cp[t] <= 1}
+    return (mp, mf) if mp and mf else None
+
+
 def _fmt(tmpl, x):
     try:
         return tmpl.format(x)
@@ -136,6 +161,11 @@ def setup(M):
     LOC = sys.modules["pendulum.locales.locale"].Locale
     M.locs = locales()
     M.data = {loc: data(loc) for loc in M.locs}
+    M.markers = {}
+    for loc, D in M.data.items():
+        mk = _markers(D)
+        if mk is not None:
+            M.markers[loc] = mk
 
     def loc_name(x):
         if x is None:
@@ -175,6 +205,24 @@ def setup(M):
                 bad.append("wrong-direction" if (opp is not None and ret == opp and opp != exp) else "phrase")
         M.check("format.phrase", not bad, f"C18/{'+'.join(bad)}:{key}", "phrase is not the locale's template for this direction and count", got=ret,
                 expected=exp, opposite=opp, **ctx)
+        # direction marker, judged independently of the entry the formatter looked up: English against the documented
+        # words (ago / in ..., before / after); every other locale against the marker words that the majority of its
+        # own units share (a single unit whose past and future templates are swapped stands out) - only the
+        # *opposite* marker without the own one is a violation, a reworded template is not
+        if not absolute and isinstance(ret, str) and not bad:
+            tk = _toks(ret)
+            if ln.split("_")[0] == "en":
+                low = ret.lower()
+                okd = ((low.endswith(" ago") if not future else low.startswith("in ")) if is_now
+                       else (low.endswith(" before") if not future else low.endswith(" after")))
+                M.check("direction.marker", okd, f"C18/direction-marker:{key}", "the English phrase does not carry the documented marker of its direction",
+                        got=ret, **ctx)
+            elif is_now and ln in M.markers:
+                mp, mf = M.markers[ln]
+                own, other = (mf, mp) if future else (mp, mf)
+                M.check("direction.marker", not ((tk & other) and not (tk & own)), f"C18/direction-marker:{key}",
+                        "the phrase carries the marker words of the opposite direction (as used by the locale's other units) and none of its own",
+                        got=ret, own=sorted(own), opposite=sorted(other), **ctx)
         # within one unit of the true elapsed time
         if unit != "few" and isinstance(diff, P.Interval):
             try:
@@ -280,6 +328,7 @@ def run(M, c):
         r = random.Random(c["seed"])
         first = {}
         for i in range(c["n"]):
+            M.progress()
             loc = r.choice(M.locs)
             key = (loc, r.choice(UNITS), r.choice((0, 1, 2, 3, 5, 11, 21, 101)), r.random() < 0.5, r.random() < 0.5, r.random() < 0.3)
             if i % 9 == 0:
@@ -338,6 +387,7 @@ def run(M, c):
         with time_machine.travel(now, tick=False):
             base = P.DateTime(2021, 6, 15, 12, 0, 0, tzinfo=P.UTC)
             for i in range(c["n"]):
+                M.progress()
                 secs = r.choice((r.randrange(0, 120), r.randrange(0, 86400 * 3), r.randrange(0, 86400 * 800), r.randrange(0, 86400 * 365 * 30)))
                 sign = r.choice((1, -1))
                 x = base.add(seconds=sign * secs)
@@ -361,6 +411,7 @@ def run(M, c):
         loc = c["loc"]
         r = random.Random(c["seed"])
         for i in range(c["n"]):
+            M.progress()
             kw = {n: r.choice((0, 0, r.randrange(0, 40))) for n in ("years", "months", "weeks", "days", "hours", "minutes", "seconds", "microseconds")}
             if i % 10 == 0:
                 kw = {n: 0 for n in kw}
